@@ -491,6 +491,7 @@ func checkC14(c *Ctx) (string, []string) {
 	c.Rule("C14.bounds", "every index/slice expression in the parser functions (all Decode methods, Decoder helpers, fuzz parsers) is proven inside its operand by dominating comparisons (linear bounds prover)", 10)
 	// all static call sites in the module, for lifting helper preconditions to callers
 	callers := map[*ssa.Function][]*ssa.Call{}
+	usedAsValue := map[*ssa.Function]bool{}
 	for _, p := range c.Pkgs {
 		if !strings.HasPrefix(p.PkgPath, modPath) {
 			continue
@@ -499,9 +500,26 @@ func checkC14(c *Ctx) (string, []string) {
 		for _, f0 := range c.SrcFuncs(rel) {
 			for _, f := range withClosures(f0) {
 				allInstrs(f, func(in ssa.Instruction) {
+					var callee ssa.Value
+					if ci, ok := in.(ssa.CallInstruction); ok {
+						callee = ci.Common().Value
+					}
 					if call, ok := in.(*ssa.Call); ok {
 						if sc := call.Call.StaticCallee(); sc != nil {
 							callers[sc] = append(callers[sc], call)
+						}
+					} else if ci, ok := in.(ssa.CallInstruction); ok {
+						// go / defer of a function: reachable, but not a call site whose guards can be read
+						if sc := ci.Common().StaticCallee(); sc != nil {
+							usedAsValue[sc] = true
+						}
+					}
+					for _, op := range in.Operands(nil) {
+						if op == nil || *op == nil || *op == callee {
+							continue
+						}
+						if fv, isF := (*op).(*ssa.Function); isF {
+							usedAsValue[fv] = true
 						}
 					}
 				})
@@ -513,6 +531,10 @@ func checkC14(c *Ctx) (string, []string) {
 	lift = func(f *ssa.Function, pi int, need int64, depth int) (bool, string) {
 		cs := callers[f]
 		if len(cs) == 0 {
+			if obj := f.Object(); obj != nil && !obj.Exported() && !usedAsValue[f] && f.Signature.Recv() == nil {
+				// an unexported function that nothing in the module calls or takes as a value cannot run
+				return true, "unreachable: unexported, no call site and never used as a value in the module"
+			}
 			return false, "no caller in the module establishes len >= " + fmt.Sprint(need)
 		}
 		for _, call := range cs {
